@@ -67,7 +67,9 @@ class ItemList(ItemContainerBase):
             try:
                 self._handle_item_addition(value, self)
             except ItemAlreadyAssignedError as e:
-                del self.__list[index]
+                # Passed index may be negative or out of range, and thus cannot
+                # be used to find what we have just inserted
+                self.__list.remove(value)
                 self._cleanup()
                 raise ValueError(*e.args) from e
 
